@@ -591,6 +591,23 @@ def judge_laws(rt, orc, rng, perturb=None):
         if rt.pbp is not None:
             gn = rt.pbp.compute_g_vectors(tth_c, eta_c, om1 * sg, lam, wedge=w, chi=c).T
             J.vec("|g| from point_by_point.compute_g_vectors %s" % tag, np.sqrt((gn * gn).sum(axis=1)), bragg)
+        # the packed fast path and the columnfile g-vector route obey the same two laws
+        PV = dict(P, wedge=w, chi=c, omegasign=sg, t_x=0.0, t_y=0.0, t_z=0.0)
+        ct = tr.Ctransform(PV)
+        res = {}
+        for which, omv in (("omega1", om1), ("omega2", om2)):
+            res[("sf2gv", which)] = np.array(ct.sf2gv(sc.copy(), fc.copy(), omv.copy(), 0.0, 0.0, 0.0))
+            res[("xyz2gv", which)] = np.array(ct.xyz2gv(np.array(ct.sf2xyz(sc.copy(), fc.copy())), omv.copy(), 0.0, 0.0, 0.0))
+            res[("xyz2geometry", which)] = np.array(ct.xyz2geometry(np.array(ct.sf2xyz(sc.copy(), fc.copy())), omv.copy(), 0.0, 0.0, 0.0))[:, 3:6]
+            for fast in (True, False):
+                cfv = rt.columnfile.colfile_from_dict({"sc": sc.copy(), "fc": fc.copy(), "omega": omv.copy()})
+                cfv.updateGV(pars=rt.parameters.parameters(**PV), fast=fast)
+                res[("columnfile.updateGV(fast=%s)" % fast, which)] = np.array([cfv.gx, cfv.gy, cfv.gz]).T
+        for (name, which), gv in sorted(res.items()):
+            J.vec("|g| from %s %s %s" % (name, which, tag), np.sqrt((gv * gv).sum(axis=1)), bragg)
+            if which == "omega2":
+                J.vec("omega law (%s): g(omega2) = Rz(-(omega2-omega1) sign) g(omega1) %s" % (name, tag), gv,
+                      rotz(-dom * sg, res[(name, "omega1")]))
     # columnfile columns: ds = 2 sin(tth/2)/lambda = |g|
     for fast in (True, False):
         cf = rt.columnfile.colfile_from_dict({"sc": sc.copy(), "fc": fc.copy(), "omega": om1.copy()})
